@@ -65,6 +65,9 @@ type tierCfg struct {
 	Masks     []int
 	HdrMasks  []int
 	Budget    time.Duration
+	G2        *g2task    // second generation (gen2.go)
+	G2Bases   [][]string // big-record base histories whose images get a second generation
+	G2Long    bool       // second generation from the images of the long histories too
 }
 
 func allMasks() []int {
@@ -79,9 +82,11 @@ func cfgFor(tier string) tierCfg {
 	if tier == "thorough" {
 		return tierCfg{Depth: 4, CoreDepth: 5, Core: coreThorough, MaxBits: 12,
 			Masks:    []int{0x01, 0x02, 0x04, 0x08, 0x10, 0x20, 0x40, 0x80, 0xFF, 0x55, 0x03},
-			HdrMasks: allMasks(), Budget: 13 * time.Minute}
+			HdrMasks: allMasks(), Budget: 13 * time.Minute,
+			G2: g2For(tier), G2Bases: g2Bases(tier), G2Long: true}
 	}
-	return tierCfg{Depth: 3, CoreDepth: 4, Core: coreShapes, MaxBits: 10, Masks: []int{0x01, 0x80, 0xFF}, HdrMasks: []int{0x01, 0x80, 0xFF, 0}, Budget: 80 * time.Second}
+	return tierCfg{Depth: 3, CoreDepth: 4, Core: coreShapes, MaxBits: 10, Masks: []int{0x01, 0x80, 0xFF}, HdrMasks: []int{0x01, 0x80, 0xFF, 0}, Budget: 80 * time.Second,
+		G2: g2For(tier), G2Bases: g2Bases(tier)}
 }
 
 // core alphabet: one representative per kind of operation (quick tier, one level deeper)
@@ -137,6 +142,9 @@ type agg struct {
 	samples    []string
 	corrFiles  int
 	maxSectors int
+	g2         g2stats
+	g2Tasks    int
+	g2Skipped  int
 }
 
 func run(prop string) int {
@@ -254,12 +262,29 @@ func run(prop string) int {
 	tasks = nil
 	for _, lh := range longHists {
 		for op := -1; op <= len(lh.Ops); op++ {
-			tb := mk(task{Kind: "crash", Seg: lh.Seg, Ops: lh.Ops, Long: lh.Name, All: true, FromOp: op, ToOp: op + 1, MaxBits: cfg.MaxBits})
+			lt := task{Kind: "crash", Seg: lh.Seg, Ops: lh.Ops, Long: lh.Name, All: true, FromOp: op, ToOp: op + 1, MaxBits: cfg.MaxBits}
+			if cfg.G2Long {
+				lt.G2 = cfg.G2
+			}
+			tb := mk(lt)
 			taskDepth[string(tb)] = -1
 			tasks = append(tasks, tb)
 		}
 	}
 	nLongTasks := len(tasks)
+	// second-generation base histories: records larger than a page, every crash point of every
+	// operation, generation 2 from every distinct recovered state (gen2.go)
+	if os.Getenv("WALMC_NOG2") != "" {
+		cfg.G2Bases = nil
+	}
+	for _, b := range cfg.G2Bases {
+		// one task per operation in flight, like the long histories
+		for op := -1; op <= len(b); op++ {
+			tb := mk(task{Kind: "crash", Seg: g2BaseSeg, Ops: b, All: true, FromOp: op, ToOp: op + 1, MaxBits: cfg.MaxBits, G2: cfg.G2})
+			taskDepth[string(tb)] = -2
+			tasks = append(tasks, tb)
+		}
+	}
 	tasks = append(tasks, phase1...)
 	for d := 0; d <= cfg.Depth; d++ {
 		hs := enumHistories(d)
@@ -283,8 +308,8 @@ func run(prop string) int {
 			}
 		}
 	}
-	fmt.Fprintf(os.Stderr, "walmc: tier %s: %d long-history crash tasks, %d corruption tasks (%d bytes x masks), histories by depth %v\n",
-		tier, nLongTasks, len(phase1), corruptBytes, a.byDepth)
+	fmt.Fprintf(os.Stderr, "walmc: tier %s: %d long-history crash tasks, %d second-generation base histories, %d corruption tasks (%d bytes x masks), histories by depth %v\n",
+		tier, nLongTasks, len(cfg.G2Bases), len(phase1), corruptBytes, a.byDepth)
 	p.Map(tasks, handle)
 
 	// ---- confirm violations: 5 straight-line re-executions each, in isolated workers
@@ -349,6 +374,37 @@ func run(prop string) int {
 	if a.skipped > 0 {
 		caps = append(caps, fmt.Sprintf("internal deadline %v: %d tasks not run", cfg.Budget, a.skipped))
 	}
+	if a.g2.CapSkipped > 0 {
+		caps = append(caps, fmt.Sprintf("second generation: %d distinct recovered states beyond the per-task bound of %d were not continued", a.g2.CapSkipped, cfg.G2.MaxStates))
+	}
+	if a.g2.Capped > 0 {
+		caps = append(caps, fmt.Sprintf("second generation: %d crash points had more than %d undetermined sectors (max %d): all subsets of the last %d x {all,none} of the earlier ones + interval families", a.g2.Capped, cfg.G2.Bits, a.g2.MaxSectors, cfg.G2.Bits))
+	}
+	var g2bases []interface{}
+	for _, b := range cfg.G2Bases {
+		g2bases = append(g2bases, strings.Join(b, " "))
+	}
+	var g2hists []interface{}
+	for _, h := range cfg.G2.Hists {
+		g2hists = append(g2hists, strings.Join(h, " "))
+	}
+	bigUsed := map[string]int{}
+	for n, sz := range bigShapes() {
+		used := false
+		for _, b := range cfg.G2Bases {
+			for _, o := range b {
+				used = used || o == n
+			}
+		}
+		for _, h := range cfg.G2.Hists {
+			for _, o := range h {
+				used = used || o == n
+			}
+		}
+		if used {
+			bigUsed[n] = sz
+		}
+	}
 	a.samples = spread(a.samples)
 	samples := make([]interface{}, 0, len(a.samples))
 	for _, s := range a.samples {
@@ -360,47 +416,72 @@ func run(prop string) int {
 		"rule": "histories = every applicable sequence of length <= depth over the 15 operation shapes (seg 2 KiB; up to core_alphabet_depth over the core alphabet, keys 100+d in histories_by_depth) + hand-shaped long histories (2 and 8 KiB segments), run on the real wal/snap code; " +
 			"crash images = at every Fsync/Fdatasync callback and API return, every per-sector choice between the content durable at the last completed sync of the file and the contents observed since (x namespace before/after, x size-follows-data / zero-filled; with more than sector_subset_bits undetermined sectors: all subsets of the last sector_subset_bits x {all,none} of the earlier ones, listed in caps_hit), de-duplicated by content hash per history; the oracle demands replay(first p records) for some p between the records acknowledged by completed calls and the records written so far; " +
 			"corruption = every byte offset of every segment (written area + 64) and snapshot file of the long histories' final image x masks; one evaluation = one run of a real reader (OpenForRead, Verify, ValidSnapshotEntries, Open+ReadAll[+Repair], Load, LoadNewestAvailable, reopen after append). " +
-			"non-trivial = distinct crash images that differ from both the all-old and the all-new neighbour image (torn images) + corruption cases whose flipped byte lies in the written area",
-		"samples":                           samples,
-		"exhaustive":                        exhaustive,
-		"histories":                         a.histories,
-		"histories_by_depth":                intMap(a.byDepth),
-		"histories_done_by_depth":           intMap(a.doneDepth),
-		"history_depth_completed":           depthDone,
-		"core_alphabet_histories":           coreN,
-		"core_alphabet_depth":               cfg.CoreDepth,
-		"core_alphabet":                     coreNames(cfg.Core),
-		"alphabet":                          alphabetNames(),
-		"inapplicable_histories":            a.inapplic,
-		"long_histories":                    len(longHists),
-		"long_history_segment_cuts":         longCuts,
-		"crash_points":                      a.res.Points,
-		"crash_points_without_torn":         a.res.TrivialPts,
-		"crash_images_distinct":             a.res.Images,
-		"crash_images_torn":                 a.res.Mixed,
-		"crash_images_short_file":           a.res.Short,
-		"crash_points_capped":               a.res.Capped,
-		"max_undetermined_sectors":          a.maxSectors,
-		"sector_subset_bits":                cfg.MaxBits,
-		"corruption_cases":                  a.res.Cases,
-		"corruption_cases_in_written_area":  a.res.HitWritten,
-		"corruption_files":                  a.corrFiles,
-		"corruption_histories":              corruptHists,
-		"corruption_bytes":                  corruptBytes,
-		"corruption_masks":                  len(cfg.Masks),
-		"corruption_masks_structural_bytes": len(cfg.HdrMasks),
-		"corruption_mask_note":              "structural bytes = frame length, record type/crc/data-length fields and their tags, padding, first 12 bytes of a .snap file; mask 0 in the structural list means 'zero the byte'",
-		"result_classes":                    a.res.Classes,
-		"caps_hit":                          caps,
-		"workers_died":                      a.died,
-		"harness_errors":                    a.errs,
-		"flaky":                             flaky,
+			"non-trivial = distinct crash images that differ from both the all-old and the all-new neighbour image (torn images) + corruption cases whose flipped byte lies in the written area; " +
+			g2Describe(cfg.G2),
+		"samples":                                samples,
+		"exhaustive":                             exhaustive,
+		"histories":                              a.histories,
+		"histories_by_depth":                     intMap(a.byDepth),
+		"histories_done_by_depth":                intMap(a.doneDepth),
+		"history_depth_completed":                depthDone,
+		"core_alphabet_histories":                coreN,
+		"core_alphabet_depth":                    cfg.CoreDepth,
+		"core_alphabet":                          coreNames(cfg.Core),
+		"alphabet":                               alphabetNames(),
+		"inapplicable_histories":                 a.inapplic,
+		"long_histories":                         len(longHists),
+		"long_history_segment_cuts":              longCuts,
+		"crash_points":                           a.res.Points,
+		"crash_points_without_torn":              a.res.TrivialPts,
+		"crash_images_distinct":                  a.res.Images,
+		"crash_images_torn":                      a.res.Mixed,
+		"crash_images_short_file":                a.res.Short,
+		"crash_points_capped":                    a.res.Capped,
+		"max_undetermined_sectors":               a.maxSectors,
+		"sector_subset_bits":                     cfg.MaxBits,
+		"corruption_cases":                       a.res.Cases,
+		"corruption_cases_in_written_area":       a.res.HitWritten,
+		"corruption_files":                       a.corrFiles,
+		"corruption_histories":                   corruptHists,
+		"corruption_bytes":                       corruptBytes,
+		"corruption_masks":                       len(cfg.Masks),
+		"corruption_masks_structural_bytes":      len(cfg.HdrMasks),
+		"corruption_mask_note":                   "structural bytes = frame length, record type/crc/data-length fields and their tags, padding, first 12 bytes of a .snap file; mask 0 in the structural list means 'zero the byte'",
+		"gen2_base_histories":                    g2bases,
+		"gen2_base_segment_size":                 g2BaseSeg,
+		"gen2_from_long_histories":               cfg.G2Long,
+		"gen2_second_histories":                  g2hists,
+		"gen2_tasks":                             a.g2Tasks,
+		"gen2_tasks_skipped":                     a.g2Skipped,
+		"gen2_images_recovering_to_a_seen_state": a.g2.Dedup,
+		"gen2_recovered_states":                  a.g2.States,
+		"gen2_recovered_states_bound":            cfg.G2.MaxStates,
+		"gen2_recovered_states_not_run":          a.g2.CapSkipped,
+		"gen2_runs":                              a.g2.Runs,
+		"gen2_runs_with_segment_cut":             a.g2.Cuts,
+		"gen2_clean_reopens":                     a.g2.Clean,
+		"gen2_crash_points":                      a.g2.Points,
+		"gen2_crash_points_capped":               a.g2.Capped,
+		"gen2_crash_images_distinct":             a.g2.Images,
+		"gen2_crash_images_torn":                 a.g2.Torn,
+		"gen2_crash_images_fully_synced":         a.g2.Strict,
+		"gen2_sector_subset_bits":                cfg.G2.Bits,
+		"gen2_max_undetermined_sectors":          a.g2.MaxSectors,
+		"gen2_records_over_4096B_written":        a.g2.BigRecs,
+		"gen2_ops_skipped_inapplicable":          a.g2.SkippedOps,
+		"records_over_4096B_shapes":              bigUsed,
+		"result_classes":                         a.res.Classes,
+		"caps_hit":                               caps,
+		"workers_died":                           a.died,
+		"harness_errors":                         a.errs,
+		"flaky":                                  flaky,
 	}
 	assumptions := []string{
 		"sector-atomic storage: a 512-byte sector holds either its content at the last completed fsync/fdatasync of the file or a content written since; unwritten sectors of preallocated space read as zeros",
 		"a directory entry (create / rename) is durable once a later observation point has been reached (directory fsync semantics are outside the property's fault model); *.tmp pipeline files are ignored",
 		"a HardState record that only advances Commit need not be durable when Save returns (raft.MustSync contract); everything else written by a returned Save / SaveSnapshot / Close must be",
 		"files are written only through the observed calls; observation at every Fsync/Fdatasync callback and API return (writes reach the file only at flush, immediately before the callback)",
+		"second generation: the directory as the real recovery left it is the durable base (the truncate + fallocate with which ReadAll zeroes a torn tail is ordered before later data writes into the re-allocated range, as on a journalling file system); recovery not durable at all = the generation-1 image itself",
 	}
 	code := rep.Finish(cov, assumptions)
 	if len(a.errs) > 0 {
@@ -416,6 +497,8 @@ func run(prop string) int {
 	if flaky > 0 && code == 0 {
 		code = 2
 	}
+	fmt.Fprintf(os.Stderr, "walmc: second generation: %d runs from %d recovered states (%d images recovered to a seen state, %d states not run), %d clean reopens, %d crash points, %d distinct images (%d torn), %d runs cut a segment\n",
+		a.g2.Runs, a.g2.States, a.g2.Dedup, a.g2.CapSkipped, a.g2.Clean, a.g2.Points, a.g2.Images, a.g2.Torn, a.g2.Cuts)
 	fmt.Fprintf(os.Stderr, "walmc: %d histories (depth completed %d), %d crash points, %d distinct images (%d torn), %d corruption cases, %d evaluations, %d violation signature(s), %.1fs, exhaustive=%v\n",
 		a.histories, depthDone, a.res.Points, a.res.Images, a.res.Mixed, a.res.Cases, a.res.Evals, rep.Count(), time.Since(start).Seconds(), exhaustive)
 	return code
@@ -524,6 +607,13 @@ func (a *agg) merge(t *task, r *result, depth int) {
 	a.res.HitWritten += r.HitWritten
 	if r.MaxSectors > a.maxSectors {
 		a.maxSectors = r.MaxSectors
+	}
+	if r.G2 != nil {
+		a.g2.add(r.G2)
+		a.g2Tasks += r.G2Tasks
+	}
+	if r.Skipped && t.G2 != nil {
+		a.g2Skipped++
 	}
 	for k, v := range r.Classes {
 		a.res.Classes[k] += v
